@@ -32,7 +32,8 @@ RENAMES = {  # (groom hash, ungroom hash) -> (wire tag, python tag)
 # overrides that do not influence construct / from_etree / to_etree (repr, read-only shortcut properties: C16 pins those itself)
 IGNORED_KINDS = ("property",)
 IGNORED_NAMES = ("__repr__", "__module__", "__doc__", "__qualname__", "__annotations__", "__firstlineno__", "__static_attributes__",
-                 "__dict__", "__weakref__", "optionalMutexes", "requiredMutexes", "__orig_bases__", "__parameters__")
+                 "__dict__", "__weakref__", "optionalMutexes", "requiredMutexes", "__orig_bases__", "__parameters__",
+                 "__slotnames__")      # __slotnames__: cached on a class by copyreg the first time an instance is copied / pickled (CPython), not source
 BASE_PINS = {"Aggregate.__init__": "072ba5844858", "Aggregate.validate_args": "91c7141526f3", "Aggregate._apply_args": "2dc68bc9bb7c",
              "Aggregate._apply_residual_kwargs": "33b91916535f", "Aggregate.from_etree": "61e75e3c821c", "Aggregate._convert": "ce8bb31ab7da",
              "Aggregate.groom": "7444b1283e1c", "Aggregate.to_etree": "b74f0e2680c2", "Aggregate._listAppend": "e84bc2091ac6",
